@@ -271,8 +271,37 @@ fn run<const B: usize, const L: usize>(p: &[&str]) -> String {
     }
 }
 
+/// `widening_mul` into a caller-chosen (well-formed) result type: the only arithmetic producer whose result width is
+/// picked by the caller. For `BITS_RES != BITS + BITS_RHS` it must panic (its asserts), never hand out a value —
+/// a value here could be non-canonical. Prints the raw limbs when a value comes back.
+fn widebad<const B1: usize, const L1: usize, const B2: usize, const L2: usize, const BR: usize, const LR: usize>(
+    sa: &str,
+    sb: &str,
+) -> String {
+    let a: Uint<B1, L1> = u(sa);
+    let c: Uint<B2, L2> = u(sb);
+    let r: Uint<BR, LR> = a.widening_mul(c);
+    format!("value {}", limbs_list(r.as_limbs()))
+}
+
 fn main() {
     run_lines(|p| {
+        if p[0] == "widebad" {
+            let k = (p[1].parse::<usize>().unwrap(), p[2].parse::<usize>().unwrap(), p[3].parse::<usize>().unwrap());
+            return match k {
+                (64, 64, 127) => widebad::<64, 1, 64, 1, 127, 2>(p[4], p[5]),
+                (64, 64, 65) => widebad::<64, 1, 64, 1, 65, 2>(p[4], p[5]),
+                (64, 64, 129) => widebad::<64, 1, 64, 1, 129, 3>(p[4], p[5]),
+                (64, 64, 64) => widebad::<64, 1, 64, 1, 64, 1>(p[4], p[5]),
+                (100, 100, 193) => widebad::<100, 2, 100, 2, 193, 4>(p[4], p[5]),
+                (100, 100, 256) => widebad::<100, 2, 100, 2, 256, 4>(p[4], p[5]),
+                (65, 63, 127) => widebad::<65, 2, 63, 1, 127, 2>(p[4], p[5]),
+                (1, 1, 1) => widebad::<1, 1, 1, 1, 1, 1>(p[4], p[5]),
+                (8, 8, 15) => widebad::<8, 1, 8, 1, 15, 1>(p[4], p[5]),
+                (8, 8, 64) => widebad::<8, 1, 8, 1, 64, 1>(p[4], p[5]),
+                _ => "unsupported-width".to_string(),
+            };
+        }
         let bits: usize = p[1].parse().unwrap();
         dispatch_bits!(bits, run, (p), [0, 1, 2, 3, 7, 8, 12, 31, 33, 60, 63, 64, 65, 100, 127, 128, 129, 200, 250, 255, 256,
             257, 521])
